@@ -29,13 +29,27 @@ TMPL = {
          '<comp><view slot:item slot:index slot:first slot:last class="{{{{first ? hh : ii}}}}">{{{{index}}}}: {{{{item.n}}}} {{{{last ? jj : kk}}}}</view>'
          '<text slot:alpha slot:beta slot:gamma="g2">{{{{alpha}}}}{{{{beta}}}}{{{{g2}}}}</text></comp>',
 }
+TMPL["x2"] = TMPL["x"].replace("exports.k = 1;", "exports.k = 2;")     # content x after set_inline_script_content
 PATHS = {"a": "p/a", "b": "p/b", "c": "q/c"}
 SCRIPT = {"x": "exports.f = function (v) { return v }", "y": "module.exports = { f: function (v) { return [v] } }"}
 
 
 def ops_of(hist):
     ops = []
+    sub = None        # contents added to the group being filled (its companion scripts travel with it)
     for h in hist:
+        if h[0] == "sub_begin":
+            sub = {}
+        elif h[0] == "sub_end_import":
+            ops.append([h[0]])
+            # a file replaced by the import takes its companion script with it
+            for name, c in (sub or {}).items():
+                if c != "y":
+                    ops.append(["remove_script", "p/s_" + name])
+            sub = None
+            continue
+        if h[0] == "add_tmpl" and sub is not None:
+            sub[h[1]] = h[2]
         if h[0] == "add_tmpl":
             p = PATHS[h[1]]
             ops.append(["add_tmpl", p, TMPL[h[2]].format(name=h[1])])
@@ -46,6 +60,8 @@ def ops_of(hist):
         elif h[0] == "add_script":
             # a script on its own (possibly the only content of a group being imported); content z's sibling files refer to it
             ops.append(["add_script", "lib/" + h[1], SCRIPT[h[2]]])
+        elif h[0] == "set_inline":
+            ops.append(["set_inline", PATHS[h[1]], "m", "exports.k = 2;"])
         elif h[0] == "remove_tmpl":
             ops.append(["remove_tmpl", PATHS[h[1]]])
             ops.append(["remove_script", "p/s_" + h[1]])
@@ -54,10 +70,13 @@ def ops_of(hist):
     return ops
 
 
-def pure(hist):
-    """every path added exactly once, nothing removed"""
-    added = [h[1] for h in hist if h[0] == "add_tmpl"]
-    return len(added) == len(set(added)) and not any(h[0] == "remove_tmpl" for h in hist)
+def pure(hist, final):
+    """histories whose artefacts are compared with every other history of the same final maps: those in which the group
+    never held a script that the final maps no longer hold (the group may legitimately keep the script runtime once a
+    file with scripts has been seen, so such a history is only compared with itself across processes)"""
+    seen = any((h[0] == "add_tmpl" and h[2] != "z") or h[0] == "add_script" for h in hist)
+    now = any(c != "z" for _, c in final)
+    return seen == now
 
 
 def digest(r):
@@ -98,10 +117,9 @@ def run(tier, seed, replay):
         for h, r in zip(hists, res):
             ck.evaluations += 1
             key = json.dumps(h["final"])
-            if not pure(h["hist"]):
-                # C20 quantifies over insertion orders of the same files (and import-group = add).  A history that replaced or
-                # removed a file is only required to be reproducible (the same history in every process): the group may
-                # legitimately keep the script runtime once a file with scripts has been seen
+            if not pure(h["hist"], h["final"]):
+                # C20 quantifies over the set of files.  A history that dropped its last script is only required to be
+                # reproducible (the same history in every process)
                 key = json.dumps({"final": h["final"], "hist": h["hist"]})
             if r["panic"]:
                 continue
